@@ -21,6 +21,8 @@ type layout struct {
 	name  string
 	cfg   func(c bs.BloomSearchEngineConfig) bs.BloomSearchEngineConfig
 	build func(w *World, rows []map[string]any) error
+	// shipped: the layout lives in the library's MemoryMetaStore instead of the harness store
+	shipped bool
 }
 
 func partByShape(r map[string]any) string {
@@ -69,7 +71,7 @@ func layoutsFor(tier string) []layout {
 			c.BloomFalsePositiveRate = 0.01
 			c.PartitionFunc = partByShape
 			return c
-		}, func(w *World, rows []map[string]any) error { return putChunks(w, rows, 7) }},
+		}, func(w *World, rows []map[string]any) error { return putChunks(w, rows, 7) }, true},
 		{"chunks50-zstd-merged", func(c bs.BloomSearchEngineConfig) bs.BloomSearchEngineConfig {
 			c.RowDataCompression = bs.CompressionZstd
 			c.ZstdCompressionLevel = 1
@@ -82,7 +84,7 @@ func layoutsFor(tier string) []layout {
 				return err
 			}
 			return mergeAll(w, w.Eng, 6)
-		}},
+		}, false},
 		{"chunks20-part-merged-by-other", func(c bs.BloomSearchEngineConfig) bs.BloomSearchEngineConfig {
 			c.RowDataCompression = bs.CompressionSnappy
 			c.BloomFalsePositiveRate = 0.01
@@ -102,11 +104,11 @@ func layoutsFor(tier string) []layout {
 				return err
 			}
 			return mergeAll(w, other, 8)
-		}},
+		}, true},
 		{"external-writer", func(c bs.BloomSearchEngineConfig) bs.BloomSearchEngineConfig {
 			c.BloomFalsePositiveRate = 0.01
 			return c
-		}, func(w *World, rows []map[string]any) error { return externalFiles(w, rows, false) }},
+		}, func(w *World, rows []map[string]any) error { return externalFiles(w, rows, false) }, false},
 	}
 	if tier == "thorough" {
 		for _, comp := range []bs.CompressionType{bs.CompressionNone, bs.CompressionSnappy, bs.CompressionZstd} {
@@ -132,7 +134,7 @@ func layoutsFor(tier string) []layout {
 							return mergeAll(w, w.Eng, 3)
 						}
 						return nil
-					}})
+					}, chunk == 64})
 				}
 			}
 		}
@@ -154,11 +156,11 @@ func layoutsFor(tier string) []layout {
 				}
 			}
 			return mergeAll(w, w.Eng, 2)
-		}})
+		}, false})
 		ls = append(ls, layout{"external-writer-bigpad", func(c bs.BloomSearchEngineConfig) bs.BloomSearchEngineConfig {
 			c.BloomFalsePositiveRate = 0.01
 			return c
-		}, func(w *World, rows []map[string]any) error { return externalFiles(w, rows, true) }})
+		}, func(w *World, rows []map[string]any) error { return externalFiles(w, rows, true) }, false})
 	}
 	return ls
 }
